@@ -249,7 +249,11 @@ func H_C05_WitnessCommitment() {
 		case 1:
 			scr = append(append([]byte{}, hdr...), commit[:]...)
 		case 2:
-			scr = append(append([]byte{}, hdr...), zzverif.Bytes("other-hash", 32)...)
+			// an arbitrary hash other than the commitment (equality is kind 1; a model that sets it equal to the ghost digest
+			// could not be realised natively)
+			other := zzverif.Bytes("other-hash", 32)
+			zzverif.Assume(!bytes.Equal(other, commit[:]))
+			scr = append(append([]byte{}, hdr...), other...)
 		case 3:
 			scr = append(append(append([]byte{}, hdr...), commit[:]...), 0x00)
 		case 4:
